@@ -290,6 +290,34 @@ def check_keys(ctx, ex):
     except AnalysisError as ex_:
         ctx.error("C12.D", f"_extract_epr_info cannot be evaluated: {ex_}")
         role = None
+    # no request outstanding under the response's key - never one (the key is absent from the per-key table, which creates entries on
+    # first access) or not any more (the key is there, its queue was drained): the response has to wait, whichever it is
+    parked = {}
+    try:
+        for flag in (0, 1):
+            for state in ("never used", "drained"):
+                tables = {}
+                for tn in ("_epr_create_requests", "_epr_recv_requests"):
+                    dd = C.Interp._DefaultDict(list)
+                    dd[(2, 8)] = [C.Obj(None, {"tot_pairs": 1, "pairs_left": 1, "tag": "other key"})]
+                    if state == "drained":
+                        dd[(2, 7)] = []
+                    tables[tn] = dd
+                resp = C.Obj(None, {"directionality_flag": flag, "remote_node_id": 2, "purpose_id": 7})
+                o = C.object_from_init(repo, ex, dict(tables, node_id=11, _logger=_Log()), kind="self")
+                try:
+                    out = C.Interp(repo, ctx.ev, C.Scenario(), ex).call_function(m, fn, [resp], {}, self_obj=o)
+                except C.EvalRaise as ex_:
+                    out = f"raises {ex_.exc_name}"
+                if out is not None:
+                    parked[(flag, state)] = out if isinstance(out, str) else "returns a request"
+    except AnalysisError as ex_:
+        ctx.error("C12.K", f"_extract_epr_info cannot be evaluated: {ex_}")
+        parked = None
+    if parked is not None:
+        ctx.check("C12.K", "_extract_epr_info:no-outstanding-request-parks-the-response", not parked,
+                  f"a response that arrives while no request is outstanding under its key (directionality flag, state of the key) -> {parked}; it has to be left pending (the function returns None) "
+                  "until the instruction that files the request has run", repo.loc(m, fn))
     exp = {True: (True, "_epr_create_requests"), False: (False, "_epr_recv_requests")}
     if role is not None:
         ctx.check("C12.K", "_extract_epr_info:oldest-request-under-key", "key" not in role and all(v_[1] in ("_epr_create_requests", "_epr_recv_requests") for v_ in role.values() if isinstance(v_, tuple)),
